@@ -5,8 +5,8 @@ package bank
 // AddCoins, SubtractCoins, the split-tier balance keys, the account tier
 // through the real auth.AccountKeeper) over an in-memory store.  Two
 // addresses, two denominations - "aaa" in the account tier (held inside the
-// account object), "bbb" in the split tier (one store key per balance) - and
-// SYMBOLIC amounts.  After a prologue that mints arbitrary holdings, k
+// account object), "bbb" in the split tier (one store key per balance) or in
+// the account tier as well - and SYMBOLIC amounts.  After a prologue that mints arbitrary holdings, k
 // arbitrary operations run; after every operation, for each denomination the
 // recorded supply equals the sum of the balances, a transfer moves exactly its
 // amount, mint and burn change supply and balance by exactly their amount, and
@@ -162,7 +162,13 @@ func verifC14New() *verifC14Env {
 	prm := verifC14Params{}
 	acck := auth.NewAccountKeeper(key, prm, std.ProtoBaseAccount, std.ProtoBaseSessionAccount)
 	e := &verifC14Env{}
-	e.bank = NewBankKeeper(acck, prm, key, []string{"aaa"})
+	// tier layout: "aaa" in the account object and "bbb" under its own key,
+	// or both inside the account object (a second gas / voucher denomination)
+	tiers := []string{"aaa"}
+	if verifChoose("both denominations in the account tier", 2) == 1 {
+		tiers = []string{"aaa", "bbb"}
+	}
+	e.bank = NewBankKeeper(acck, prm, key, tiers)
 	e.ctx = sdk.NewContext(sdk.RunTxModeDeliver, verifC14MS{kv: &verifC14KV{}}, verifC14Header{}, nil)
 	e.addr[0][0], e.addr[1][0] = 1, 2
 	return e
